@@ -57,3 +57,25 @@ fn c03_record_decode_fields_17() {
         Err(_) => assert!(raw[0] < 20 || raw[0] > 24),
     }
 }
+
+/// decode(encode(r)) == r and the buffer is consumed (length octets asserted, then re-written as literals)
+#[kani::proof]
+#[kani::unwind(24)]
+fn c03_record_roundtrip_4() {
+    let ct = match kani::any::<u8>() % 5 { 0 => ContentType::ChangeCipherSpec, 1 => ContentType::Alert, 2 => ContentType::Handshake,
+        3 => ContentType::ApplicationData, _ => ContentType::Heartbeat };
+    let pl: [u8; 4] = kani::any();
+    let r = DtlsRecord { content_type: ct, version: ProtocolVersion { major: kani::any(), minor: kani::any() }, epoch: kani::any(),
+        sequence_number: kani::any::<u64>() & 0xFFFF_FFFF_FFFF, payload: static_bytes_of(pl) };
+    let mut buf = BytesMut::with_capacity(32);
+    r.encode(&mut buf);
+    assert!(buf.len() == 17 && buf[11] == 0 && buf[12] == 4);
+    let mut a = [0u8; 17];
+    a.copy_from_slice(&buf);
+    a[11] = 0; a[12] = 4;
+    let mut b = static_bytes_of(a);
+    let d = DtlsRecord::decode(&mut b).unwrap().unwrap();
+    assert!(d.content_type == r.content_type && d.version == r.version && d.epoch == r.epoch && d.sequence_number == r.sequence_number);
+    assert!(d.payload[..] == pl[..] && b.is_empty());
+    core::mem::forget(buf); core::mem::forget(d);
+}
